@@ -181,6 +181,10 @@ pub fn settle(cx: &Ctx, s0: usize) -> Option<usize> {
     let mut s = s0;
     for _round in 0..(n + 2) {
         let before = s;
+        // a commit produced while exploring was never published: the environment eventually drops it
+        if let Some(e) = g.follow(s, Action::ClearPending) {
+            s = e.target;
+        }
         for &i in &cx.w.settle_order {
             if let Some(e) = g.follow(s, Action::Deliver(i)) {
                 s = e.target;
@@ -191,6 +195,63 @@ pub fn settle(cx: &Ctx, s0: usize) -> Option<usize> {
         }
     }
     None
+}
+
+/// Root-cause oriented description of a stuck quiescent state: which event of the winning branch
+/// is the member missing, what does its dedup record say, what does re-delivering it return,
+/// is there a rollback snapshot for the fork epoch. No ids, no path.
+pub fn diagnose(cx: &Ctx, q: usize) -> String {
+    let w = cx.w;
+    let g = cx.g;
+    let st = &g.states[q];
+    let Some(go) = &st.g else { return "no-group".into() };
+    let root_epoch = w.nodes[&vec![]].core.epoch;
+    let leaf_path = w.spine.last().unwrap().clone();
+    let node = go.mls.as_ref().and_then(|c| w.nodes.values().find(|n| n.core.authenticator == c.authenticator && n.core.epoch == c.epoch));
+    let mut parts: Vec<String> = Vec::new();
+    parts.push(format!("record={}", go.record_state));
+    if go.pending_commit {
+        parts.push("pending-commit".into());
+    }
+    let Some(node) = node else {
+        parts.push("at-unknown-node".into());
+        return parts.join(",");
+    };
+    // fork point: longest common prefix of the member's node and the spine leaf
+    let mut k = 0;
+    while k < node.path.len() && k < leaf_path.len() && node.path[k] == leaf_path[k] {
+        k += 1;
+    }
+    let fork = &leaf_path[..k];
+    parts.push(format!("off-spine-depth={}", node.path.len() - k));
+    // the spine commit the member would need next
+    let needed = w.pool.iter().enumerate().find(|(_, p)| p.kind == EvKind::Commit && p.node.as_slice() == fork && p.child.as_ref().map(|c| c.len() == k + 1 && leaf_path.starts_with(c)).unwrap_or(false));
+    match needed {
+        None => parts.push("needs-nothing".into()),
+        Some((i, p)) => {
+            let res = g.follow(q, Action::Deliver(i)).map(|e| e.result.clone()).unwrap_or_else(|| "disabled".into());
+            let own = if p.author == g.member { "own" } else { "other" };
+            parts.push(format!("needs=commit.{own}:dedup={}:redelivery={}", if st.dedup[i].is_empty() { "none" } else { &st.dedup[i] }, res));
+            // proposals of that node the commit may depend on
+            for (j, pr) in w.pool.iter().enumerate() {
+                if pr.kind == EvKind::Proposal && pr.node.as_slice() == fork {
+                    parts.push(format!("proposal-dedup={}", if st.dedup[j].is_empty() { "none" } else { &st.dedup[j] }));
+                }
+            }
+            let fork_epoch = root_epoch + k as u64;
+            let has_snap = st.snap_queue.iter().any(|(e, _, _)| *e == fork_epoch);
+            if node.path.len() > k {
+                parts.push(format!("snapshot-at-fork={}", if has_snap { "yes" } else { "no" }));
+                // how the member got onto the losing branch: own commit or somebody else's
+                let first_off = w.pool.iter().find(|p| p.kind == EvKind::Commit && p.child.as_deref() == Some(&node.path[..k + 1]));
+                if let Some(fo) = first_off {
+                    parts.push(format!("on-branch-of={}", if fo.author == g.member { "own-commit" } else { "other-commit" }));
+                    parts.push(format!("branch-is-better={}", World::better(fo, p)));
+                }
+            }
+        }
+    }
+    parts.join(",")
 }
 
 pub fn check_c01(cx: &Ctx, rep: &mut Report, expect_converge: bool) {
@@ -227,6 +288,7 @@ pub fn check_c01(cx: &Ctx, rep: &mut Report, expect_converge: bool) {
             None => Some("no-quiescence"),
         })
         .collect();
+    let mut seen_sig: std::collections::BTreeSet<String> = std::collections::BTreeSet::new();
     for s in 0..g.states.len() {
         let Some(class) = verdict[s] else { continue };
         if class != "no-quiescence" && !expect_converge {
@@ -238,16 +300,22 @@ pub fn check_c01(cx: &Ctx, rep: &mut Report, expect_converge: bool) {
                 continue;
             }
         }
+        let q = settle(cx, s);
+        let diag = q.map(|q| diagnose(cx, q)).unwrap_or_else(|| "does-not-settle".into());
+        let sig = format!("C01|{class}|{:?}|{}", g.regime, diag);
+        if !seen_sig.insert(sig.clone()) {
+            rep.add_count("violating_histories_same_diagnosis", 1);
+            continue;
+        }
         let path = g.path_to(s);
-        let pred = |e: usize| verdict[e] == Some(class);
+        let pred = |e: usize| verdict[e] == Some(class) && settle(cx, e).map(|q| diagnose(cx, q)).as_deref() == Some(diag.as_str());
         let min = g.minimise(&path, &pred);
-        let sig = format!("C01|{class}|{:?}|{}|{}", g.regime, member_role(w, &g.member), abstract_trace(cx, &min));
         let end = g.run(&min).unwrap_or(s);
         let q = settle(cx, end);
         rep.finding(
             sig,
-            format!("member {}: after [{}], re-offering every event until nothing changes ends {class}", g.member, trace_labels(cx, &min).join(" ; ")),
-            detail(cx, &min, json!({"class": class, "settled_state": q.and_then(|q| g.states[q].g.as_ref().map(|x| json!({"mls": x.mls, "state": x.record_state}))), "expected": w.leaf().core})),
+            format!("member {} ({}): after [{}], re-offering every event until nothing changes ends {class}: {diag}", g.member, member_role(w, &g.member), trace_labels(cx, &min).join(" ; ")),
+            detail(cx, &min, json!({"class": class, "diagnosis": diag, "abstract_trace": abstract_trace(cx, &min), "role": member_role(w, &g.member), "settled_state": q.and_then(|q| g.states[q].g.as_ref().map(|x| json!({"mls": x.mls, "state": x.record_state}))), "expected": w.leaf().core})),
         );
     }
     // panics are violations of every property that runs the code
@@ -273,6 +341,7 @@ pub fn already_handled(w: &World, g: &Graph, s: usize, i: usize) -> Option<&'sta
     let d = st.dedup[i].as_str();
     let go = st.g.as_ref()?;
     match (p.kind, d) {
+        (EvKind::Msg, "created") if p.author == g.member => Some("own-message-first-echo"),
         (EvKind::Msg, "processed") => Some("stored-message"),
         (EvKind::Msg, "epoch_invalidated") => Some("invalidated-message"),
         (EvKind::Proposal, "processed") => Some("handled-proposal"),
@@ -314,7 +383,11 @@ pub fn check_c07(cx: &Ctx, rep: &mut Report) {
             let Some(kind) = already_handled(w, g, s, i) else { continue };
             rep.case(&format!("{kind}|{}|{}", event_class(w, &g.member, i), e.result));
             rep.outcome(&format!("{kind}:{}", e.result));
-            let same = g.states[e.target].obs_hash == g.states[s].obs_hash;
+            let mut same = g.states[e.target].obs_hash == g.states[s].obs_hash;
+            if !same && kind == "own-message-first-echo" {
+                // the one permitted effect: the sender's own copy is confirmed (Created -> Processed)
+                same = same_but_confirmation(&g.states[s], &g.states[e.target], w.pool[i].rumor.as_ref().and_then(|r| r.id).map(|x| x.to_hex()));
+            }
             if same {
                 continue;
             }
@@ -336,6 +409,18 @@ pub fn check_c07(cx: &Ctx, rep: &mut Report) {
     }
 }
 
+fn same_but_confirmation(a: &StateRec, b: &StateRec, msg_id: Option<String>) -> bool {
+    let (Some(x), Some(y), Some(id)) = (&a.g, &b.g, msg_id) else { return false };
+    let mut xm = x.clone();
+    let mut ym = y.clone();
+    for m in xm.messages.iter_mut().chain(ym.messages.iter_mut()) {
+        if m["id"].as_str() == Some(id.as_str()) && (m["state"] == "created" || m["state"] == "processed") {
+            m["state"] = json!("created-or-processed");
+        }
+    }
+    xm == ym
+}
+
 /// shrink a trace whose last step is a duplicate delivery that changes obs
 fn minimise_edge(g: &Graph, w: &World, path: &[Action], last: Action, kind: &str) -> Vec<Action> {
     let mut cur: Vec<Action> = path[..path.len() - 1].to_vec();
@@ -346,7 +431,15 @@ fn minimise_edge(g: &Graph, w: &World, path: &[Action], last: Action, kind: &str
             return false;
         }
         match g.follow(s, last) {
-            Some(e) => g.states[e.target].obs_hash != g.states[s].obs_hash,
+            Some(e) => {
+                if g.states[e.target].obs_hash == g.states[s].obs_hash {
+                    false
+                } else if kind == "own-message-first-echo" {
+                    !same_but_confirmation(&g.states[s], &g.states[e.target], w.pool[i].rumor.as_ref().and_then(|r| r.id).map(|x| x.to_hex()))
+                } else {
+                    true
+                }
+            }
             None => false,
         }
     };
